@@ -37,6 +37,10 @@ def cond_atoms(c, truth):
     if k == "bin" and c["op"] in NEG:
         op = c["op"] if truth else NEG[c["op"]]
         l, r = strip_casts(c["l"]), strip_casts(c["r"])
+        # canonical form: only <, <=, ==, != (a > b is b < a), so that no rule depends on how a comparison is spelt
+        if op in (">", ">="):
+            op = {">": "<", ">=": "<="}[op]
+            l, r = r, l
         out.append((op, _val_text(l), _val_text(r), l, r))
         return out
     out.append(("true" if truth else "false", lv(c), c))
